@@ -55,6 +55,7 @@ structure Dev where
   kind : DevKind
   prop : DevProp := .config
   val : Bytes := []
+  alone : Bool := true          -- the only deviate statement of its deviation statement
   deriving Repr
 
 def A.name : A → Tok
@@ -107,7 +108,10 @@ def setProp (a : A) (p : DevProp) (v : Option Bytes) : A :=
 /-- `doDeviate` on the target node: `isAllowed`, `propertyAction`, `finalAction` -/
 def devNode (d : Dev) (a : A) : Except String A :=
   match d.kind with
-  | .notSupported => pure (a.setMeta { a.meta with notSupported := true })
+  | .notSupported =>
+    -- processDeviations: `len(devs) > 1` is checked when the loop reaches the not-supported statement
+    if !d.alone then .error "No other deviate statements allowed with not-supported"
+    else pure (a.setMeta { a.meta with notSupported := true })
   | .add =>
     if !applicable a d.prop then .error "Property not allowed on node"
     else if (getProp a d.prop).isSome then .error "Property being added to node already exists"
